@@ -7,7 +7,8 @@ W=/tmp/seed/$ID; S=$W/seed_out
 OUT=/verif/seeded/$ID-$N
 [ -f $S/patch$N.diff ] && [ -f $S/demo$N.cpp ] || { echo "missing patch/demo"; exit 2; }
 git -C $W checkout -q -- include
-CXXF="-std=c++17 -O1 -I$W/include -I/usr/include/eigen3 -pthread -fopenmp"
+OMPF="-fopenmp"; [ -n "${NO_OPENMP:-}" ] && OMPF=""   # NO_OPENMP=1: for changes in the non-OpenMP fallback branches
+CXXF="-std=c++17 -O1 -I$W/include -I/usr/include/eigen3 -pthread $OMPF"
 T=$(mktemp -d /tmp/confirm.XXXXXX); trap 'rm -rf $T; git -C $W checkout -q -- include' EXIT
 g++ $CXXF $S/demo$N.cpp -o $T/demo_pristine 2> $T/err || { cat $T/err | tail; echo "demo does not compile (pristine)"; exit 2; }
 ( cd $T && timeout 600 ./demo_pristine > $T/out_pristine 2>&1 ); RC0=$?
